@@ -57,7 +57,11 @@ class Scratch:
     """Copy of /repo's working tree outside /repo and /verif, removed at exit."""
 
     def __init__(self):
-        self.dir = tempfile.mkdtemp(prefix='eolib-verif-')
+        # the checkout sits in a directory called `eolib` (as `git clone .../eolib` would make it): nothing the generator or the package does
+        # may depend on what the directories ABOVE src/eolib are called
+        self.top = tempfile.mkdtemp(prefix='eolib-verif-')
+        self.dir = os.path.join(self.top, 'eolib')
+        os.makedirs(self.dir)
         atexit.register(self.cleanup)
         for name in ('src', 'protocol_code_generator', 'protocol.py'):
             s = os.path.join(REPO, name)
@@ -69,7 +73,7 @@ class Scratch:
         self.src = os.path.join(self.dir, 'src')
 
     def cleanup(self):
-        shutil.rmtree(self.dir, ignore_errors=True)
+        shutil.rmtree(self.top, ignore_errors=True)
 
 
 def load_leaf(src, *modnames):
